@@ -350,3 +350,13 @@ Proof.
   unfold introspect, key_of. cbn [p_ref p_tampered]. rewrite Hn. cbn [option_map].
   rewrite HA, HR. destruct (negb (cf_introspect_rt cfg)); [reflexivity|destruct h; reflexivity].
 Qed.
+
+(* over a whole history: a record of the table was there before, or belongs to a request id that did not exist yet *)
+Theorem imp_keeps_run cfg h : forall s k r,
+  implicit (st (run cfg s h)) k = Some r -> implicit (st s) k = Some r \/ next_rid s <= r_id r.
+Proof.
+  unfold run. induction h as [|o h IH]; intros s k r H; cbn [fold_left] in H; [left; exact H|].
+  destruct (IH _ _ _ H) as [H0|H0].
+  - destruct (imp_keeps_step cfg s o k r H0) as [H1|H1]; [left; exact H1|right; lia].
+  - right. pose proof (next_rid_step cfg s o). lia.
+Qed.
